@@ -467,6 +467,9 @@ func (c *Ctx) checkWalkComplete(W *ssa.Function, fetch map[*ssa.Function]bool) {
 		// early success: value must come from a receiver field stored only after the loop
 		fv := c.memoFieldOf(W, rr[0])
 		if fv == nil {
+			fv = c.memoFieldViaGetter(W, rr[0])
+		}
+		if fv == nil {
 			bad = append(bad, fmt.Sprintf("nil-error return at %s bypasses the walk and does not return a memo", c.P.Pos(ret.Pos())))
 			continue
 		}
@@ -484,9 +487,22 @@ func (c *Ctx) checkWalkComplete(W *ssa.Function, fetch map[*ssa.Function]bool) {
 					if _, fresh := rootObject(st.Addr); fresh {
 						continue // constructor initialisation (sentinel)
 					}
-					if fn != W || !(core.EdgeDominates(header, exit, st.Block()) || st.Block() == exit) {
-						bad = append(bad, fmt.Sprintf("memo field %s is written at %s before the walk is complete", fv.Name(), c.P.Pos(st.Pos())))
+					if fn == W && (core.EdgeDominates(header, exit, st.Block()) || st.Block() == exit) {
+						continue
 					}
+					// a setter method of the same type: every call of it inside W must come after the loop, and nobody else may call it
+					if fn != W && core.RecvNamed(fn) == core.RecvNamed(W) && fn.Parent() == nil {
+						okSetter := len(c.G.In[fn]) > 0
+						for _, e := range c.G.In[fn] {
+							if e.Caller != W || e.Site == nil || !(core.EdgeDominates(header, exit, e.Site.Block()) || e.Site.Block() == exit) {
+								okSetter = false
+							}
+						}
+						if okSetter {
+							continue
+						}
+					}
+					bad = append(bad, fmt.Sprintf("memo field %s is written at %s before the walk is complete", fv.Name(), c.P.Pos(st.Pos())))
 				}
 			}
 		}
@@ -636,4 +652,38 @@ func (c *Ctx) memoFieldOf(fn *ssa.Function, v ssa.Value) *types.Var {
 		}
 	}
 	return nil
+}
+
+// memoFieldViaGetter: v is the result of a method on W's receiver all of whose returns are loads of one receiver field.
+func (c *Ctx) memoFieldViaGetter(W *ssa.Function, v ssa.Value) *types.Var {
+	for i := 0; i < 3; i++ {
+		switch x := v.(type) {
+		case *ssa.Convert:
+			v = x.X
+			continue
+		case *ssa.Phi:
+			if len(x.Edges) == 1 {
+				v = x.Edges[0]
+				continue
+			}
+		}
+		break
+	}
+	call, ok := v.(*ssa.Call)
+	if !ok {
+		return nil
+	}
+	g := call.Call.StaticCallee()
+	if g == nil || len(g.Params) == 0 || len(call.Call.Args) == 0 || call.Call.Args[0] != ssa.Value(W.Params[0]) || core.RecvNamed(g) != core.RecvNamed(W) {
+		return nil
+	}
+	var field *types.Var
+	for _, ret := range core.Returns(g) {
+		fv := c.memoFieldOf(g, core.ResolvedResults(ret)[0])
+		if fv == nil || (field != nil && fv != field) {
+			return nil
+		}
+		field = fv
+	}
+	return field
 }
